@@ -6,6 +6,11 @@ VERIF = os.path.dirname(os.path.abspath(__file__))
 
 # property id -> (level category, technique, level text, level note, design ref)
 CLAIMED = {
+    "C20": ("exploration",
+            "ask-ledger monitor over simulated networks with honest (real DHTNode), failing and adversarial responders",
+            "Runs the real DHTFindNode/Join/Get/Put against simulated networks whose Ask function is the harness; every ask is logged, so per-node contact counts, the termination bound and every result field are recomputed from the ledger and compared.",
+            "Adversary fabrication capped at 40 new ids per operation; node ids never all-zero; initial peers are a set.",
+            "DESIGN.md §4 C20"),
     "C15": ("exploration",
             "runtime oracle over generated frames (round-trip, injectivity set, header prefix-freeness) + channel-tagged ledger on real Mux/AskMux instances",
             "Runs the real framing functions of all five multiplexer kinds on generated and engineered near-collision (channel,payload) pairs, and drives real muxes over memswarm with confusable channel sets where every payload names its channel; held = no mismatch, collision or cross-channel delivery observed.",
